@@ -196,3 +196,26 @@ __CPROVER_ensures((g_exc == 0 && RET && g_md.g_level == LL_Dynamic) ==> (SLOT.dy
     dropped=['the argument decoding / formatting / named-args section (one stub that advances the read position and may throw; units BW.fmt_msg, CD.*)', 'lazy RdtscClock creation', 'byte addresses as integers; header bytes (layout fixed by LG.encode_header)', 'debug-only digit-count assertion'],
     trusted=['header slice reads timestamp, metadata and logger (24 bytes) as written by _encode_header'], min_obligations=30)
 UNITS.append(populate)
+
+# ------------------------------------------------------------------------ header decoding slice of _populate_transit_event_from_frontend_queue (C04)
+HS_PRELUDE = r'''
+typedef struct MacroMetadata MacroMetadata; typedef struct LoggerBase LoggerBase;
+typedef struct TE { uint64_t timestamp; MacroMetadata const* macro_metadata; LoggerBase* logger_base; } TE;
+'''
+header_slice = dict(
+    name='BW.header_slice', primary='C04', props={'C04'}, kind='L',
+    desc='the header-decoding statements of _populate_transit_event_from_frontend_queue: timestamp, metadata pointer and logger pointer are read from offsets 0, 8, 16 - exactly where LoggerImpl::_encode_header (unit LG.encode_header) writes them - and 24 bytes are consumed (the decoder pointer follows)',
+    structs=[], prelude=HS_PRELUDE, enforce='BW_header_slice', replace=[],
+    funcs=[dict(src=dict(header=H, cls='BackendWorker', name='_populate_transit_event_from_frontend_queue',
+                         stmt_re=r'std::memcpy\(&transit_event->timestamp, read_pos.*?read_pos \+= sizeof\(transit_event->logger_base\)\s*;'),
+                cfun='BW_header_slice', sig='unsigned char* BW_header_slice(unsigned char* read_pos, TE* transit_event)', member_fields=[],
+                rules=[(r'\}\s*$', 'return read_pos;\n}')],
+                contract=r'''
+__CPROVER_requires(__CPROVER_is_fresh(read_pos, 32) && __CPROVER_is_fresh(transit_event, sizeof(TE)))
+__CPROVER_assigns(__CPROVER_object_whole(transit_event))
+__CPROVER_ensures(RET == OLD(read_pos) + 24) /*@ C04 "the backend consumes 8 + 2 pointer-sized header bytes before the decoder pointer" */
+__CPROVER_ensures(transit_event->timestamp == *(uint64_t*)OLD(read_pos) && (uintptr_t)transit_event->macro_metadata == *(uintptr_t*)(OLD(read_pos) + 8) && (uintptr_t)transit_event->logger_base == *(uintptr_t*)(OLD(read_pos) + 16)) /*@ C04 "header fields are read in the order and at the offsets the frontend wrote them" */
+''')],
+    harness='  unsigned char* p; TE* te; BW_header_slice(p, te);',
+    dropped=['everything of the function outside the three header reads'], trusted=[], min_obligations=10)
+UNITS.append(header_slice)
